@@ -29,6 +29,7 @@ pub fn prop() -> Prop {
             Sub::enumerate("rgb888", |ex| rgb::<Rgb888, RawU24>(ex, 24, 32, (8, 8, 8), true)),
             Sub::enumerate("bgr888", |ex| rgb::<Bgr888, RawU24>(ex, 24, 32, (8, 8, 8), false)),
             Sub::enumerate("new_masks_channels", new_masks),
+            Sub::enumerate("raw_from_u32", raw_from_u32),
         ],
     }
 }
@@ -286,4 +287,57 @@ fn binary_gray(ex: &Ex) {
     if Gray8::BLACK.luma() != 0 || Gray8::WHITE.luma() != 255 || Gray4::WHITE.luma() != 15 || Gray2::WHITE.luma() != 3 {
         ex.fail(idx + 1, "gray_constants", "BLACK/WHITE constants", "constants");
     }
+}
+
+
+/// `RawData::from_u32` (documented: only the least significant bits are used) and the other ways into a raw
+/// value, for all seven raw types: every low part up to 12 bits x 64 high parts placed at every bit
+/// position above the width.
+fn raw_from_u32(ex: &Ex) {
+    use embedded_graphics::pixelcolor::raw::{RawData, RawU1, RawU2, RawU32, RawU4};
+    ex.par(7, |i| {
+        let (mut n, mut nt) = (0u64, 0u64);
+        macro_rules! go {
+            ($r:ty, $bpp:expr) => {{
+                let bpp: u32 = $bpp;
+                let mask: u32 = if bpp == 32 { u32::MAX } else { (1u32 << bpp) - 1 };
+                for low in 0..(1u32 << bpp.min(12)) {
+                    // spread the low part over the width
+                    let low = if bpp > 12 { low.wrapping_mul(0x9E37_79B1) & mask } else { low };
+                    for hi in 0..64u32 {
+                        for shift in bpp..32 {
+                            let v = low | (hi.wrapping_mul(0x85EB_CA6B) << shift);
+                            n += 1;
+                            nt += u64::from(v > mask);
+                            let got: u32 = <$r>::from_u32(v).into_inner().into();
+                            if got != v & mask {
+                                ex.fail(i * 1_000_000 + low as u64, String::from("raw:from_u32"), format!("from_u32({:#x}).into_inner() = {:#x}, the {} least significant bits are {:#x}", v, got, bpp, v & mask), format!("{} bit raw type", bpp));
+                                return;
+                            }
+                        }
+                        if bpp == 32 {
+                            n += 1;
+                            let v = low ^ hi.wrapping_mul(0x85EB_CA6B);
+                            let got: u32 = <$r>::from_u32(v).into_inner().into();
+                            if got != v {
+                                ex.fail(i * 1_000_000 + low as u64, String::from("raw:from_u32"), format!("from_u32({:#x}).into_inner() = {:#x}", v, got), String::from("32 bit raw type"));
+                                return;
+                            }
+                        }
+                    }
+                }
+            }};
+        }
+        match i {
+            0 => go!(RawU1, 1),
+            1 => go!(RawU2, 2),
+            2 => go!(RawU4, 4),
+            3 => go!(RawU8, 8),
+            4 => go!(RawU16, 16),
+            5 => go!(RawU24, 24),
+            _ => go!(RawU32, 32),
+        }
+        ex.add(n, nt);
+        ex.sample(|| format!("raw type {}: {} values, {} of them wider than the type", i, n, nt));
+    });
 }
